@@ -592,3 +592,46 @@ def c16j(ctx):
     rnd = gm.find(lambda x: is_call(x, 'LayerRenderer', 'renderer.render', 'self.authorized_layers'))
     ok = bool(chk) and bool(rnd) and all(any(gm.dominates(c, n) and c != n for c, _ in chk) for n, x in rnd)
     ctx.check(ok, 'WMSServer.map:checked-before-rendering', 'check_map_request dominates the rendering of the map', mp)
+
+
+@rule('C16.k', floor=2)
+def c16k(ctx):
+    """the tile limit is enforced where the tiles are counted: CacheMapLayer.get_map refuses a request over `max_tile_limit`, so every
+    CacheMapLayer the loader builds for a cache is given the configured limit in its constructor -- a limit set afterwards on whatever
+    wraps the layers (the SRS switch of a cache with several grids) is never looked at by the layers inside"""
+    fn = ctx.fn('mapproxy/config/loader.py:CacheConfiguration.map_layer')
+    ctors = [x for x in fn.walk() if is_call(x, 'CacheMapLayer')]
+    if not ctors:
+        raise Undecided('CacheConfiguration.map_layer: CacheMapLayer construction not found')
+    for k, x in enumerate(ctors):
+        lim = keyword(x, 'max_tile_limit', 3)
+        c = fn.canon.expr(lim) if lim is not None else None
+        ok = c is not None and is_call(c, 'self.context.globals.get_value') and c.args and const_value(c.args[0]) == 'max_tile_limit'
+        ctx.check(ok, 'CacheConfiguration.map_layer:CacheMapLayer#%d:limit-in-constructor' % (k + 1), 'CacheMapLayer(.., max_tile_limit=<configured limit>)', fn, x,
+                  fail='a CacheMapLayer is built without the configured max_tile_limit: map requests over the limit are fetched and cached')
+    im = ctx.fn('mapproxy/layer.py:CacheMapLayer._image')
+    g = im.cfg
+    loads = g.find(lambda x: is_call(x, 'self.tile_manager.load_tile_coords'))
+    over = g.guard_edges(lambda at: at.op == '<' and 'max_tile_limit' in at.text, False)
+    ok = bool(loads) and bool(over) and all(n not in g.reachable(d) for s_, d in over for n, x in loads)
+    ctx.check(ok, 'CacheMapLayer._image:limit-before-tiles', 'the tiles are not loaded for a request over self.max_tile_limit', im)
+
+
+@rule('C16.l', floor=4)
+def c16l(ctx):
+    """a tile address is checked against the matrix set it was given for: in the WMTS handlers the layer object that validates the
+    address (tile_bbox / render: level, row and column against the grid) is the one of the *requested* tile matrix set,
+    `self.layers[request.layer][request.tilematrixset]` -- the layer entry alone forwards to its first matrix set, and an address
+    outside the requested set but inside the first one is served / forwarded upstream"""
+    for m, uses in (('tile', ('render',)), ('featureinfo', ('tile_bbox',))):
+        fn = ctx.fn(WMTS + ':WMTSServer.' + m)
+        sites = [x for x in fn.walk() if isinstance(x, ast.Call) and isinstance(x.func, ast.Attribute) and x.func.attr in uses]
+        if not sites:
+            raise Undecided('WMTSServer.%s: no %s call found' % (m, '/'.join(uses)))
+        for x in sites:
+            c = unparse(fn.canon.expr(x.func.value)).replace(' ', '')
+            ok = c == 'self.layers[request.layer][request.tilematrixset]'
+            ctx.check(ok, 'WMTSServer.%s:%s:layer-of-requested-matrix-set' % (m, x.func.attr), 'the address is validated by self.layers[layer][tilematrixset]', fn, x,
+                      fail='WMTSServer.%s validates the tile address with %s, not with the layer of the requested tile matrix set' % (m, c[:70]))
+        chk = [x for x in fn.walk() if is_call(x, 'self.check_request')]
+        ctx.check(bool(chk), 'WMTSServer.%s:request-checked' % m, 'check_request (layer / matrix set known) runs in the handler', fn)
